@@ -34,7 +34,7 @@ CFG = {
             "vm.EVM.Call/Create contract (gas left <= given, revert on error, ErrInsufficientBalance iff CanTransfer fails)": "assumed in the theorems (C07); checked on every case by the driver (oracleObeysContract) and the harness"},
     "assumptions": ["Go runtime, math/big and the cryptographic primitives are modelled, not verified (DESIGN.md 2.5)",
                     "the general theorems take the EVM as a parameter obeying the contract EvmOk; for the C07 machine the contract is PROVED (evm_contract_over_vm, from C07 leftover_le_given_*, frame_failure_reverts_*, *_terminates, no_modelled_panic) and the *_over_vm theorems carry no EvmOk hypothesis. Residual assumptions there: TxVm.OracleOk (the machine does not interpret the world: its oracle must answer the top-level CanTransfer truthfully and its Create nonce effect must be SetNonce(caller, nonce+1)), Vm.EnvOK (generated gas table); the contract is also checked on every generated case against the real EVM",
-                    "the sender is an externally owned account (SenderIsEOA): execution cannot change the sender's nonce except through evm.Create's own bump",
+                    "SenderIsEOA is a hypothesis of the GENERAL nonce_plus_one/impl_refines_spec only; over the C07 machine nonce_plus_one_over_vm derives it from NoCodeAtSigner on the transaction's pre-state (no code at the signing address: a CREATE address keccak(rlp(creator,nonce)) never hits a key-controlled address) plus CodeDiscipline (oracle effects install no code at a code-less signer and do not move its nonce; the depth-0 Create bump is pinned by OracleOk) — signer_nonce_over_vm, Lemmas/TxVmNonce.lean",
                     "IntrinsicGas' overflow guards cannot be exercised on the real code (they need > 2^57 data bytes); they are covered by intrinsic_gas_formula only",
                     "Homestead rules for failed_exec_only_gas (true for every built-in config: builtin_configs_homestead)"],
     "trusted_base": ["Model.Tx mirrors core/state_transition.go (IntrinsicGas, preCheck, buyGas, TransitionDb, refundGas), core/gaspool.go, core/state_processor.go (ApplyTransaction, Process loop), core/block_validator.go (gas check)",
